@@ -102,6 +102,10 @@ parts:
 		if lit == nil {
 			break
 		}
+		if dq.Dollar {
+			// $"..." is not $'...': the latter interprets backslash escapes.
+			continue
+		}
 		var sb strings.Builder
 		escaped := false
 		for _, r := range lit.Value {
